@@ -745,7 +745,7 @@ func (e *Engine) buildReplayTest(o *Obligation, t *Target, lits map[string]strin
 	b.WriteString(")\n\nconst gvcLo, gvcHi = -4, 48\n")
 	b.WriteString(replayHelpers)
 	b.WriteString(defs)
-	b.WriteString("\nfunc TestGvcReplay(t *testing.T) {\n\tdefer func() {\n\t\tif r := recover(); r != nil {\n\t\t\tfmt.Printf(\"GVC-REPLAY panic=%q\\n\", fmt.Sprint(r))\n\t\t}\n\t}()\n")
+	b.WriteString("\nfunc TestGvcReplay(gvcT *testing.T) {\n\tdefer func() {\n\t\tif r := recover(); r != nil {\n\t\t\tfmt.Printf(\"GVC-REPLAY panic=%q\\n\", fmt.Sprint(r))\n\t\t}\n\t}()\n")
 	b.WriteString(body.String())
 	b.WriteString("}\n")
 	note := ""
